@@ -10,9 +10,9 @@ import time
 import traceback
 
 ROOT = os.path.dirname(os.path.dirname(os.path.abspath(__file__)))
-HARNESS = os.path.join(ROOT, "harness")
-EVIDENCE = os.path.join(ROOT, "evidence")
-REPLAYS = os.path.join(ROOT, "replays")
+HARNESS = os.environ.get("VERIF_HARNESS") or os.path.join(ROOT, "harness")
+EVIDENCE = os.environ.get("VERIF_EVIDENCE") or os.path.join(ROOT, "evidence")
+REPLAYS = os.environ.get("VERIF_REPLAYS") or os.path.join(ROOT, "replays")
 LEDGER = os.path.join(ROOT, "known_findings.json")
 NCPU = 16
 
